@@ -4,6 +4,7 @@ import (
 	"fmt"
 	"go/token"
 	"go/types"
+	"reflect"
 	"strings"
 
 	"golang.org/x/tools/go/ssa"
@@ -447,6 +448,44 @@ func runX8(p *an.Prog, r *an.Result) {
 	a, b := join.Params[0], join.Params[1]
 	intK := map[int64]bool{2: true, 3: true, 4: true, 5: true, 6: true, 7: true, 8: true, 9: true, 10: true, 11: true}
 	floatK := map[int64]bool{13: true, 14: true}
+	// the join as a table over all pairs of kinds, when it is written in the small language of
+	// comparisons, kind predicates and constant results (kindeval.go)
+	if kt := kindTableOf(p, join, 0); kt.ok {
+		famOf := func(k int64) string {
+			switch {
+			case intK[k]:
+				return "int"
+			case floatK[k]:
+				return "float"
+			}
+			return ""
+		}
+		want := map[[2]string]string{{"int", "int"}: "int", {"int", "float"}: "float", {"float", "int"}: "float", {"float", "float"}: "float"}
+		bad := map[[2]string]string{}
+		for ka := int64(0); ka < kindCount; ka++ {
+			for kb := int64(0); kb < kindCount; kb++ {
+				fa, fb := famOf(ka), famOf(kb)
+				w, isNum := want[[2]string{fa, fb}]
+				if !isNum {
+					continue
+				}
+				if got := famOf(kt.val[[2]int64{ka, kb}]); got != w {
+					bad[[2]string{fa, fb}] = fmt.Sprintf("%s x %s joins to %s", reflect.Kind(ka), reflect.Kind(kb), reflect.Kind(kt.val[[2]int64{ka, kb}]))
+				}
+			}
+		}
+		for c, w := range want {
+			r.Counts["family pairs"]++
+			construct := fmt.Sprintf("%s x %s", c[0], c[1])
+			if why, isBad := bad[c]; isBad {
+				r.Bad(name, construct+" does not join to a "+w+" kind", an.FuncPos(join), fmt.Sprintf("%s must join %s with %s to a %s kind (integers compare exactly as integers; anything involving a float compares as float64); the table of the function over all pairs of kinds has %s", name, c[0], c[1], w, why))
+			} else {
+				r.OK(name, construct+" joins to a "+w+" kind", an.FuncPos(join), "for every pair of kinds of these families, by the table of the function over all 27 x 27 pairs")
+			}
+		}
+		r.Floor("family pairs", 4)
+		return
+	}
 	// classify a condition: what it says about which family a parameter belongs to
 	type fact struct {
 		par *ssa.Parameter
